@@ -43,25 +43,25 @@ CHECKS = {
    text="Every decoder is fed corpus documents, generated valid documents and their mutations (byte-level, token-level, JSON structural: every sub-tree replaced by null/[]/{}/\"\"/0, keys deleted), arbitrary bytes and deep nesting; only value or error are allowed; every accepted value goes through every encoder and Authorize.",
    note="Timeouts count only when the single input reproduces them alone (otherwise inconclusive)." + TB),
  "C11": dict(cat=E, ref="5/C11", tech="algebraic-law monitor over an exhaustive collision universe (all sequences up to length 4/5) + structural invariant hooks on Set/Record + mutation-aliasing probes",
-   text="Equality laws over all pairs/triples of the universe, NewSet for every permutation/duplication, set/record equality and subset operators against the model, codec stability of equal values, hook invariants (probe reachability, no duplicates, summed hash), and immutability under mutation of constructor inputs / accessor outputs.",
+   text="Equality laws over all pairs/triples of the universe, NewSet for every permutation/duplication, set/record equality and subset operators against the model, codec stability of equal values, hook invariants (probe reachability, no duplicates, summed hash), and immutability under mutation of constructor inputs / accessor outputs; JSON forms are also decoded by the typed decoders into receivers that already hold a value.",
    note="Hooks types.VerifSetInvariant/VerifRecordInvariant (build tag verif) expose the open-addressing invariants." + TB),
  "C12": dict(cat=E, ref="5/C12", tech="differential monitor of scalar printers/parsers/constructors against independent big-integer parsers and printers; exhaustive edit-distance-1/2 mutants of valid literals; all Unicode scalar values (thorough)",
-   text="Parse(String(v))==v and Cedar renderings evaluate to v for boundary and random payloads of every scalar type; accept/reject and value of literal strings agree with the reference parsers for all strings within edit distance 1 (2) of valid literals; constructors are exact or fail.",
+   text="Parse(String(v))==v and Cedar renderings evaluate to v for boundary and random payloads of every scalar type; accept/reject and value of literal strings agree with the reference parsers for all strings within edit distance 1 (2) of valid literals; constructors (package types and the root package re-exports) are exact or fail.",
    note="Syntax acceptance asserted only for unambiguous RFC 80 forms; float constructors only for NaN/Inf/range and exactly representable inputs." + TB),
  "C13": dict(cat=E, ref="5/C13", tech="JSON round-trip monitor for values, entities, entity maps, requests, diagnostics; alternative spellings written by the harness; schema-guided coercion path",
    text="decode(encode(x)) equals x, encode is stable across a second trip, and every accepted spelling of one datum decodes to an equal value.",
    note="Records that are exactly an escape object are excluded (inherently ambiguous in Cedar JSON)." + TB),
  "C14": dict(cat=E, ref="5/C14", tech="repetition monitor: R-fold re-execution (each Go map range is a fresh schedule), fresh re-parses and shuffled insertion orders; the number of distinct outputs must be 1",
-   text="Decision, reason set, error set with messages and all marshalled bytes are compared across R=24/64 repetitions, re-decodings and insertion orders for inputs biased to where map order can leak.",
+   text="Decision, reason set, error set with messages and all marshalled bytes are compared across R=24/64 repetitions, re-decodings and insertion orders for inputs biased to where map order can leak; policy sets with equal contents built along different histories encode alike; a fixed corpus encodes to the same digests in freshly started child processes.",
    note="A single case misses a 2-way map-order leak with probability (7/8)^(R-1) (about 4.6% at R=24, 2e-4 at R=64: Go starts iterating a small map at a random slot of an 8-slot bucket); every leak class is exercised by hundreds of cases per run." + TB),
  "C15": dict(cat=E, ref="5/C15", tech="soundness monitor: validator verdict vs observed evaluation error class (sentinel hook) on by-construction schema-conforming requests and stores, with single-step type-breaking mutations",
-   text="For generated schemas and policies the validator accepts (strict and permissive), evaluation on schema-conforming data never fails with type / unknown-function / arity / missing attribute-or-tag errors.",
+   text="For generated schemas and policies the validator accepts (strict and permissive), evaluation on schema-conforming data never fails with type / unknown-function / arity / missing attribute-or-tag errors. A completely enumerated shapes stream (union types over a type hierarchy, capability leaks through boolean combinations, guards in other clauses, look-alike tag keys) targets the places where the validator decides not to demand something.",
    note="Conforming data are additionally accepted by validator.Entities/Request; disagreement there is inconclusive." + TB),
  "C16": dict(cat=F, ref="5/C16", tech="termination/no-crash monitor in journalled child processes over exhaustive small schema graphs (entity hierarchies, common types, action groups) x policies/entities/requests",
-   text="Resolve and every validator entry point return normally (result or error) for all small schema graphs incl. cycles, self references, undefined references and shadowing, and for JSON-decoded policies with set/record/extension literals.",
+   text="Resolve and every validator entry point return normally (result or error) for all small schema graphs incl. cycles, self references, undefined references (incl. unqualified names that dangle across namespaces), references mentioned twice and shadowing, and for JSON-decoded policies with set/record/extension literals.",
    note="Fatal stack overflows are attributed through an on-disk journal; watchdog hits count only when reproduced alone." + TB),
  "C17": dict(cat=E, ref="5/C17", tech="round-trip monitor over generated schema ASTs: Resolve(parse(render(s))) ~ Resolve(s) for text, JSON and cross conversions; byte-identical second rendering",
-   text="Generated schemas (namespaces, common types, optional attributes, enums, action groups, annotations, names needing quotes) survive both codecs and both conversions with the same resolved schema and stable bytes.",
+   text="Generated schemas (namespaces, common types, optional attributes, enums, action groups, annotations, names needing quotes) survive both codecs and both conversions with the same resolved schema and stable bytes, also when parsed into a Schema value that already resolved another schema; flat schemas with 1100-2600 type expressions take the same paths.",
    note="Same-named common type and entity type visible from one site are excluded from the text path (indistinguishable there)." + TB),
  "C18": dict(cat=F, ref="5/C18", tech="schedule/fault monitor over io.Reader chunkings (1 byte .. 1025, random, zero-length reads, data+EOF, failing reader at every byte) vs whole-slice parsing; positions vs the generator's own counter",
    text="Token streams and policy streams are identical under every reader schedule; a failing reader yields an error and no truncated policy; offset/line/column of every policy equal the generator's record and appear in diagnostics.",
@@ -70,7 +70,7 @@ CHECKS = {
    text="Zero race reports over 150/3000 rounds of 16-64 goroutines mixing Authorize, batch.Authorize, marshalling, accessors and validation on shared inputs; every concurrent call returns its solo result; inputs (policies incl. unexported evaluator trees, ASTs, entities, requests, values, schema; the Validator receivers are not inputs) are unchanged. Each world holds random policies plus text-loaded policies written against a schema with a three-level action hierarchy.",
    note="Race reports are process-external evidence (log files of a -race child)." + TB),
  "C20": dict(cat=E, ref="5/C20", tech="model-based history checking: an executable id->policy map stepped alongside PolicySet operations with authorization probes and marshal/unmarshal round trips spliced in; exhaustive short histories + random long ones",
-   text="Every operation returns what the map model predicts after any history; authorization depends only on current contents; loader ids policy0.. with file name in every position; MarshalCedar in lexicographic id order; Map() copies independent.",
+   text="Every operation returns what the map model predicts after any history; authorization depends only on current contents; loader ids policy0.. with file name in every position; MarshalCedar in lexicographic id order; Map() copies independent; an iterator obtained earlier yields the current contents or those at the time of the call.",
    note="Policies carry by-construction outcomes so expected decisions follow from the model's contents." + TB),
 }
 
